@@ -875,7 +875,8 @@ spifconf_parse_line(FILE * fp, spif_charptr_t buff)
     ASSERT(buff != NULL);
 
     if (!(*buff) || *buff == '\n' || *buff == '#' || *buff == '<') {
-        SPIFCONF_PARSE_RET();
+        /* Nothing has been pushed yet, so there is nothing to pop (fp == NULL mode). */
+        return;
     }
     if (!fp) {
         file_push(NULL, (spif_charptr_t) "<argv>", NULL, 0, 0);
